@@ -242,6 +242,7 @@ def _frames():
 FRAMES = _frames()
 BASE_JUMPS = ["break", "continue", "return", "raise", "fall"]
 EXTRA_JUMPS = ["reraise", "raisefrom", "raisebase", "assert"]
+QUICK_EXTRA_JUMPS = ["reraise", "raisebase"]
 
 
 def _jump(a, j):
@@ -585,7 +586,8 @@ class FlowStream(Stream):
             "inside first/second handler; try-finally body/finally (normal and during an exception); try-except-else-finally "
             "body/handler/else/finally; with 1 manager keep/suppress; with 2 managers keep,keep/suppress,keep/keep,suppress; "
             "function boundary) ending in each of {break, continue, return, raise, fall-through} (plus bare re-raise, raise-from, "
-            "raise of a BaseException, failing assert for d<=2), exhaustive for d<=2 in quick and d<=3 in thorough, only those "
+            "raise of a BaseException, failing assert for d=1 and, in thorough, d=2; bare re-raise and BaseException for d=2 in quick), "
+            "exhaustive for d<=2 in quick and d<=3 in thorough, only those "
             "CPython's compiler accepts; (b) random skeletons to nesting depth 6 over all constructs with random scripts for "
             "conditions/iterators, 1-3 managers with raising __enter__/suppressing or raising __exit__, handler names reused "
             "within a function. Every block position carries t(n). The same source runs under the real AstEval and under CPython; "
@@ -597,10 +599,11 @@ class FlowStream(Stream):
     check_spec = "fcase_spec_ok"
     attrib = "fcase_attrib pv_cfg pv_ct"
     explain = "fcase_explain pv_cfg pv_ct"
-    shard_size = 450
+    shard_size = 250
+    coqc_timeout = 1500      # a shard needs ~5 s of CPU; the margin is for a heavily shared machine
 
     def budget(self, tier):
-        return 7200 if tier == "quick" else 82000
+        return 5700 if tier == "quick" else 82000
 
     def prelude(self, ctx, findings, witness_terms):
         ct = q.lst(f"({q.N(cid)}, {q.lst(q.N(x) for x in anc)})" for cid, anc in class_table())
@@ -608,8 +611,8 @@ class FlowStream(Stream):
 
     def generate(self, ctx, budget, focus=None):
         rng = ctx.rng
-        enum = list(enum_paths(1, BASE_JUMPS + EXTRA_JUMPS)) + list(enum_paths(2, BASE_JUMPS + EXTRA_JUMPS))
         deep = ctx.tier == "thorough" or bool(focus)
+        enum = list(enum_paths(1, BASE_JUMPS + EXTRA_JUMPS)) + list(enum_paths(2, BASE_JUMPS + (EXTRA_JUMPS if deep else QUICK_EXTRA_JUMPS)))
         if deep and budget >= 20000:
             enum += list(enum_paths(3, BASE_JUMPS))
         n_d3 = 0
